@@ -156,22 +156,27 @@ def conditioning(world_spec, ops, tol_fn, eps, prop="X"):
     return worst
 
 
-def confirm_chain(scn, run, bad_of, tol_fn, prop, counters, eps=1e-9):
+def confirm_chain(scn, run, bad_of, tol_fn, prop, counters, eps=1e-9, twin_world=None):
     """Decide whether a twin discrepancy is a violation of a property that holds
     'within solver tolerance'.  A genuine violation is generic: it persists when
-    (1) the solver tolerance is tightened, (2) the initial textures of BOTH worlds get the
-    same tiny deterministic perturbation (which breaks exact symmetries between grains whose
-    numerical tie-breaking by rounding noise is a knife edge, not a property of the code),
-    and (3) the history does not amplify such a perturbation to the tolerance.
+    (1) the solver tolerance is tightened (rtol 1e-10, then 1e-12: a trajectory passing close
+    to a separatrix of the D-Rex dynamics can still end on the wrong side at 1e-10),
+    (2) the initial textures of BOTH worlds get the same tiny deterministic perturbation
+    (which breaks exact symmetries between grains whose numerical tie-breaking by rounding
+    noise is a knife edge, not a property of the code), and
+    (3) neither world amplifies such a perturbation to the tolerance (noise-floor probe).
     Returns True when the discrepancy is confirmed."""
     import copy
 
     s2 = scn
-    if scn["world"].get("solver", {}).get("tol") != "tight":
-        s2 = copy.deepcopy(scn)
-        s2["world"]["solver"] = {"tol": "tight"}
+    for level, key in (("tight", "default_solver_outlier_not_confirmed_by_tight_solver"),
+                       ("ultra", "tight_solver_outlier_not_confirmed_at_rtol_1e-12")):
+        if s2["world"].get("solver", {}).get("tol") in (level, "ultra"):
+            continue
+        s2 = copy.deepcopy(s2)
+        s2["world"]["solver"] = {"tol": level}
         if not bad_of(run(s2)):
-            counters["default_solver_outlier_not_confirmed_by_tight_solver"] = 1
+            counters[key] = 1
             return False
     for pseed in (101, 202):
         s3 = copy.deepcopy(s2)
@@ -179,9 +184,12 @@ def confirm_chain(scn, run, bad_of, tol_fn, prop, counters, eps=1e-9):
         if not bad_of(run(s3)):
             counters["knife_edge_not_reproduced_under_perturbation"] = 1
             return False
-    worst = conditioning(s2["world"], s2["ops"], tol_fn, eps, prop)
-    if worst > 0.1:
-        counters["ill_conditioned_history_not_judged"] = 1
-        return False
+    worlds = [s2["world"]]
+    if twin_world is not None:
+        worlds.append(twin_world(s2))
+    for wspec in worlds:
+        if conditioning(wspec, s2["ops"], tol_fn, eps, prop) > 0.1:
+            counters["ill_conditioned_history_not_judged"] = 1
+            return False
     counters["violation_confirmed"] = 1
     return True
